@@ -21,6 +21,37 @@ use verif_harness::{Cfg, r#gen::Rng, guarded, out::Out, out::hex};
 
 type Rgb = [u8; 3];
 
+/// Watchdog: every call into the implementation runs in a worker thread; when it does not come back
+/// within `CASE_TIMEOUT` the case is reported as non-terminating (the stuck thread cannot be killed, it
+/// is abandoned; after `MAX_HUNG` such cases the remaining cases are skipped and the process exits once
+/// the statistics are written).
+const CASE_TIMEOUT: std::time::Duration = std::time::Duration::from_secs(4);
+const MAX_HUNG: usize = 2;
+static HUNG: std::sync::atomic::AtomicUsize = std::sync::atomic::AtomicUsize::new(0);
+
+fn too_many_hung() -> bool {
+    HUNG.load(std::sync::atomic::Ordering::SeqCst) >= MAX_HUNG
+}
+
+/// `Some(Ok(v))` finished, `Some(Err(()))` panicked, `None` did not terminate in time
+fn watched<T: Send + 'static>(f: impl FnOnce() -> T + Send + 'static) -> Option<Result<T, ()>> {
+    let (tx, rx) = std::sync::mpsc::channel();
+    let spawned = std::thread::Builder::new().stack_size(16 << 20).spawn(move || {
+        let _ = tx.send(guarded(f));
+    });
+    if spawned.is_err() {
+        return Some(Err(()));
+    }
+    match rx.recv_timeout(CASE_TIMEOUT) {
+        Ok(r) => Some(r),
+        Err(std::sync::mpsc::RecvTimeoutError::Timeout) => {
+            HUNG.fetch_add(1, std::sync::atomic::Ordering::SeqCst);
+            None
+        }
+        Err(std::sync::mpsc::RecvTimeoutError::Disconnected) => Some(Err(())),
+    }
+}
+
 fn dist(a: Rgb, b: Rgb) -> i64 {
     (0..3).map(|i| (a[i] as i64 - b[i] as i64).pow(2)).sum()
 }
@@ -74,10 +105,18 @@ fn run_kd(out: &mut Out, pal: &[RGBA], queries: &[RGBA], kind: &str) {
     let input = json!({"kind": "kd", "palette": rgba_hex(pal), "queries": rgba_hex(queries)});
     let prgb: Vec<Rgb> = pal.iter().map(|c| c.to_rgb()).collect();
     let qrgb: Vec<Rgb> = queries.iter().map(|c| c.to_rgb()).collect();
-    let res = guarded(|| {
-        let p = ColorPalette::new(pal.to_vec())?;
-        Some(queries.iter().map(|q| p.find(*q)).collect::<Vec<_>>())
+    if too_many_hung() {
+        return;
+    }
+    let (pal_v, queries_v) = (pal.to_vec(), queries.to_vec());
+    let res = watched(move || {
+        let p = ColorPalette::new(pal_v)?;
+        Some(queries_v.iter().map(|q| p.find(*q)).collect::<Vec<_>>())
     });
+    let Some(res) = res else {
+        out.fail("nearest-colour lookup does not terminate", input, json!("an index per query"), json!("no answer within 4 s"));
+        return;
+    };
     out.hist(&format!("kd:{kind}"));
     out.hist(&format!("kd:size:{}", size_bucket(pal.len())));
     let req = format!("c13 kd {} {}", rgb_hex(&prgb), rgb_hex(&qrgb));
@@ -302,13 +341,17 @@ fn digraph_shape(text: &str) -> Option<String> {
 fn run_oct(out: &mut Out, colors: &[RGBA], ops: &str, kind: &str) {
     let input = json!({"kind": "oct", "colors": rgba_hex(colors), "ops": ops});
     let crgb: Vec<Rgb> = colors.iter().map(|c| c.to_rgb()).collect();
-    let res = guarded(|| {
+    if too_many_hung() {
+        return;
+    }
+    let (colors_v, ops_v) = (colors.to_vec(), ops.to_string());
+    let res = watched(move || {
         let mut t = OcTree::new();
-        for c in colors {
+        for c in colors_v.iter() {
             t.insert(*c);
         }
         let mut bound: Option<usize> = None;
-        for op in ops.split(',') {
+        for op in ops_v.split(',') {
             if op == "p" {
                 t.prune();
             } else if let Ok(k) = op.parse::<usize>() {
@@ -324,6 +367,10 @@ fn run_oct(out: &mut Out, colors: &[RGBA], ops: &str, kind: &str) {
         let pal = t.build_palette();
         (shape, pal, bound)
     });
+    let Some(res) = res else {
+        out.fail("quantisation does not terminate (OcTree insert/prune/prune_until)", input, json!("a palette"), json!("no answer within 4 s"));
+        return;
+    };
     out.hist(&format!("oct:{kind}"));
     let distinct: BTreeSet<Rgb> = crgb.iter().copied().collect();
     out.case(&format!("oct {} {}", rgb_hex(&crgb), ops), distinct.len() > 1);
@@ -345,6 +392,17 @@ fn run_oct(out: &mut Out, colors: &[RGBA], ops: &str, kind: &str) {
                         json!(format!("1..={b}")),
                         json!(prgb.len()),
                     );
+                }
+            }
+            // colours that fit every requested size are all kept (what `from_image` relies on when an
+            // image's distinct colours fit the palette)
+            let only_until = !ops.is_empty() && ops.split(',').all(|o| o.parse::<usize>().map(|k| k >= distinct.len() && k >= 1).unwrap_or(false));
+            if only_until && !colors.is_empty() {
+                let got: BTreeSet<Rgb> = prgb.iter().copied().collect();
+                if got != distinct || prgb.len() != distinct.len() {
+                    out.fail("prune_until(k) loses colours although the distinct colours fit k", input.clone(),
+                             json!({"distinct": distinct.len(), "colours": rgb_hex(&distinct.iter().copied().collect::<Vec<_>>())}),
+                             json!({"palette_size": prgb.len(), "palette": rgb_hex(&prgb)}));
                 }
             }
             if distinct.len() <= 8 && ops.is_empty() {
@@ -427,7 +485,10 @@ fn run_quant(out: &mut Out, case: &QuantCase, kind: &str) {
     }
     let distinct: BTreeSet<Rgb> = px.iter().copied().collect();
     let (k, dither, bg) = (case.k, case.dither, case.bg);
-    let res = guarded(|| {
+    if too_many_hung() {
+        return;
+    }
+    let res = watched(move || {
         img.quantize(k, dither, bg).map(|(pal, q)| {
             let prgb: Vec<Rgb> = pal.colors().iter().map(|c| c.to_rgb()).collect();
             let size_ok = pal.size() == prgb.len();
@@ -440,6 +501,10 @@ fn run_quant(out: &mut Out, case: &QuantCase, kind: &str) {
             (prgb, q.height(), q.width(), idx, size_ok)
         })
     });
+    let Some(res) = res else {
+        out.fail("quantisation does not terminate (Image::quantize)", input, json!("a palette and an index image"), json!("no answer within 4 s"));
+        return;
+    };
     out.hist(&format!("quant:{kind}"));
     out.hist(if dither { "quant:dither" } else { "quant:plain" });
     if case.crop.is_some() {
@@ -679,6 +744,20 @@ fn main() {
             for k in [1usize, 8, 9, 12] {
                 run_quant(&mut out, &QuantCase { height: 3, width: 4, data: data.clone(), crop: None, k, dither, bg: None }, "corner");
             }
+        }
+        // exact fit: n distinct colours, k = n (and n ± 1), both dither settings; also through the octree API
+        for n in [8usize, 9, 16, 64, 7] {
+            let cols: Vec<Rgb> = (0..n).map(|i| [(i * 37 % 256) as u8, (i * 101 % 256) as u8, (255 - i * 3) as u8]).collect();
+            let mut data = opaque(&cols);
+            data.extend(opaque(&cols[..n / 2]));
+            let (hh, ww) = (3usize, n / 2);
+            for dither in [false, true] {
+                for k in [n, n + 1, n.saturating_sub(1).max(1)] {
+                    run_quant(&mut out, &QuantCase { height: hh, width: ww, data: data.clone(), crop: None, k, dither, bg: None }, "exact-fit");
+                }
+            }
+            run_oct(&mut out, &opaque(&cols), &n.to_string(), "exact-fit");
+            run_oct(&mut out, &opaque(&cols), &format!("{},{}", n + 5, n), "exact-fit");
         }
         // one colour, duplicates only
         run_quant(&mut out, &QuantCase { height: 5, width: 3, data: opaque(&[[9, 8, 7]; 15]), crop: None, k: 1, dither: true, bg: None }, "corner");
